@@ -458,6 +458,21 @@ for order in ("a-then-da", "da-then-a", "d-then-da", "registry-getitem"):
                 lookup_check(reg, n, exp, ATOMS[k]["dim"], "order:" + order,
                              src + "".join("unyt.Unit(%r, registry=reg)\n" % m for m in seq[:seq.index(n)]))
 
+# 4a'. a derived (already prefixed) row never takes a second prefix, whichever name was seen first
+reg = UnitRegistry()
+hist = "reg = unyt.UnitRegistry()\n"
+for k in PREFIXABLE:
+    for p1 in ("a", "k", "da"):
+        inner = p1 + k
+        if inner in LUT or (inner in READING and READING[inner][1] != k):
+            continue
+        safe(Unit, inner, registry=reg)
+        for p2 in ("k", "m", "da", "d"):
+            n = p2 + inner
+            if n in LUT or n in READING:
+                continue
+            lookup_check(reg, n, None, None, "double-prefix", "reg = unyt.UnitRegistry()\nunyt.Unit(%r, registry=reg)\n" % inner)
+
 # 4b. random lookup orders over confusable names in one fresh registry each
 confusable = sorted({p + k for k in PREFIXABLE for p in PREFIX} - set(LUT))
 for trial in range(6 if R.thorough else 2):
